@@ -294,3 +294,35 @@ Example string_examples :
   dec_string NullPad 8 [97;98;99;100;48;0;0;0] = [97;98;99;100;48] /\
   dec_string SpacePad 6 [97;98;32;99;32;32] = [97;98;32;99].
 Proof. repeat split; vm_compute; reflexivity. Qed.
+
+(* ------------------------------------------------------------------ the pinned attribute reader vs the specification *)
+
+Lemma attr_pinned_ok_le_signed : forall n bs, go_attr_int_pinned LE true n bs = dec_int LE true n bs.
+Proof. reflexivity. Qed.
+
+Lemma attr_fixed_ok_signed : forall o n bs, go_attr_int_fixed o true n bs = dec_int o true n bs.
+Proof. reflexivity. Qed.
+
+(* tall.h5 "/" attr2[1] (H5T_STD_I32BE, bytes 00 00 00 01): the reference reports 1, the reader 16777216 *)
+Lemma attr_pinned_byte_order_refuted :
+  exists bs, byte_ok bs = true /\ length bs = 4%nat /\ go_attr_int_pinned BE true 4 bs <> dec_int BE true 4 bs.
+Proof. exists [0;0;0;1]. repeat split; try reflexivity. vm_compute. discriminate. Qed.
+
+(* tattrintsize.h5 "/" DU32BITS[0] (H5T_STD_U32LE, bytes ff ff ff ff): the reference reports 4294967295, the reader -1;
+   the byte-order repair does not change this one *)
+Lemma attr_unsigned_refuted :
+  exists bs, byte_ok bs = true /\ length bs = 4%nat /\
+    go_attr_int_pinned LE false 4 bs <> dec_int LE false 4 bs /\ go_attr_int_fixed LE false 4 bs <> dec_int LE false 4 bs.
+Proof. exists [255;255;255;255]. repeat split; try reflexivity; vm_compute; discriminate. Qed.
+
+Lemma attr_pinned_full_refuted : ~ attr_int_full go_attr_int_pinned.
+Proof.
+  intro H. specialize (H BE true 4 [0;0;0;1] eq_refl eq_refl (or_introl eq_refl)).
+  vm_compute in H. discriminate.
+Qed.
+
+Lemma attr_fixed_full_refuted : ~ attr_int_full go_attr_int_fixed.
+Proof.
+  intro H. specialize (H LE false 4 [255;255;255;255] eq_refl eq_refl (or_introl eq_refl)).
+  vm_compute in H. discriminate.
+Qed.
